@@ -304,9 +304,11 @@ class Screen(BaseScreen, RealTerminal):
             # an incomplete sequence (also one the resize throttling above read) and no event loop to set an alarm on: give the rest complete_wait
             # to arrive here; decode what there is as it stands only when nothing more came
             pending = len(self._partial_codes)
-            self._wait_for_input_ready(self.complete_wait)
+            ready = self._wait_for_input_ready(self.complete_wait)
             codes = self.get_available_raw_input()
-            new_keys, new_raw = self.parse_input(None, None, codes, wait_for_more=len(codes) > pending)
+            # woken by a resize signal alone: the sequence has not had complete_wait to arrive yet, wait for it again
+            resize_only = ready == [self._resize_pipe_rd.fileno()]
+            new_keys, new_raw = self.parse_input(None, None, codes, wait_for_more=len(codes) > pending or resize_only)
             keys += new_keys
             raw += new_raw
 
